@@ -522,6 +522,18 @@ func (c *Compiler) compileDefine(
 		return c.errorf(node, "%q redeclared in this block", ident)
 	}
 
+	if exists && symbol.Scope != ScopeLocal {
+		// destructuring may name a symbol of this scope that is not a local
+		// variable slot.
+		if symbol.Scope == ScopeGlobal {
+			// like a local variable that already exists, it is assigned.
+			return c.compileAssign(node, symbol, ident)
+		}
+		if !symbol.Constant {
+			return c.errorf(node, "%q redeclared in this block", ident)
+		}
+	}
+
 	if symbol.Constant {
 		return c.errorf(node, "assignment to constant variable %q", ident)
 	}
